@@ -185,6 +185,14 @@ fn validate_token_from_addr_v6(v6_addr: Ipv6Addr, token: Token, secret: u32) -> 
     generate_token_from_addr_v6(v6_addr, secret) == token
 }
 
+// Verification hook: raw fields of the token store.
+#[cfg(btdht_verif)]
+impl TokenStore {
+    pub(crate) fn verif_fields(&self) -> (u32, u32, Instant) {
+        (self.curr_secret, self.last_secret, self.last_refresh)
+    }
+}
+
 #[cfg(test)]
 mod tests {
     use crate::time::Instant;
